@@ -277,7 +277,7 @@ def run_case(case, ctx):
 # MANIFEST-BEGIN
 MANIFEST = {
     'technique': 'reference-model monitor on the columns of run(): per-column comparison with the reference trajectory of the variable named by the label, over generated circuits with pairwise different nodes',
-    'level_text': 'For generated hierarchical circuits whose nodes all differ in initial values and constants, random output requests (dict/list form, single node, all at any level, several keys; vectorize on/off) are run and every returned column is compared (1e-7) with the independent reference trajectory of exactly the variable its label names; the column set must be a bijection onto the requested variables. A permuted or mis-resolved column changes values by O(1). A hostile-names family uses variables that look like derived labels (x_v1 next to several x) and node labels equal to variable names. Further families: wide groups and two-input edge templates. Wide groups are mostly requested as a whole; column labels are normalised only for the NaN padding of shorter tuples (a key spelled out character by character is a violation). A shared-sub-circuit family registers one mid-level CircuitTemplate object under two keys, edits a variable below one key with update_var and requests the variable below both keys and through a wildcard. Held on observed requests only.',
+    'level_text': 'For generated hierarchical circuits whose nodes all differ in initial values and constants, random output requests (dict/list form, single node, all at any level, several keys; vectorize on/off) are run and every returned column is compared (1e-7) with the independent reference trajectory of exactly the variable its label names; the column set must be a bijection onto the requested variables. A permuted or mis-resolved column changes values by O(1). A hostile-names family uses variables that look like derived labels (x_v1 next to several x) and node labels equal to variable names. Further families: wide groups and two-input edge templates. Wide groups are mostly requested as a whole; column labels are normalised only for the NaN padding of shorter tuples (a key spelled out character by character is a violation). A shared-sub-circuit family registers one mid-level CircuitTemplate object under two keys, edits a variable below one key with update_var and requests the variable below both keys and through a wildcard. Paths are also exercised as INPUT addresses (wildcard paths with one column per addressed node, machinery of C08), and a family uses node types that share one operator template, so that a wildcard spans several vectorization groups in interleaved declaration order. Held on observed requests only.',
     'level_note': 'Trusted: vp/ref.py trajectories; the label conventions listed in ASSUMPTIONS. Population outputs are covered under C16.',
 }
 # MANIFEST-END
